@@ -254,6 +254,17 @@ def yaml_text(case, order):
     return '\n'.join(lines)
 
 
+def yaml_raw_text(case, order):
+    """the same table as a !ThermochemRawData document; the range is left out when it is the table span (the documented default)"""
+    lines = ['!ThermochemRawData', 'T_ref: %r K' % case['T_ref'], 'ND_H_ref: %r' % case['H_ref'], 'ND_S_ref: %r' % case['S_ref']]
+    if not (case['range'][0] == min(case['Ts']) and case['range'][1] == max(case['Ts'])):
+        lines.append('range: [%r K, %r K]' % (case['range'][0], case['range'][1]))
+    lines.append('ND_Cp_data:')
+    for i in order:
+        lines.append('    - [%r K, %r]' % (case['Ts'][i], case['Cps'][i]))
+    return '\n'.join(lines)
+
+
 def check_table(ctx, case):
     m = _pg()
     Ts, Cps, T_ref, H, S, rng, order = (case['Ts'], case['Cps'], case['T_ref'], case['H_ref'], case['S_ref'],
@@ -268,7 +279,9 @@ def check_table(ctx, case):
         'raw': lambda: m['Raw'](H, S, pTs, pCps, T_ref, rng),
         'group': lambda: m['Group'](H, S, dict(zip(pTs, pCps)), T_ref, rng),
         'yaml': lambda: m['yaml_io'].load(m['yaml_io'].parse(yaml_text(case, order))),
+        'yamlraw': lambda: m['yaml_io'].load(m['yaml_io'].parse(yaml_raw_text(case, order))),
     }
+    ctx.event('raw-yaml:%s' % ('range-left-out' if 'range:' not in yaml_raw_text(case, order) else 'range-given'))
     if not is_sorted:
         builders['raw-sorted'] = lambda: m['Raw'](H, S, Ts, Cps, T_ref, rng)
     for name, b in builders.items():
